@@ -40,7 +40,7 @@ QUICK = [
     ("cmpdata", {"Fam": "<- FamCmpData", "LitPool": "<- Lits2", "Names": "<- Names1", "BinOps": "<- OpsEqNe",
                  "FldNames": "<- Flds2", "MaxN": "5", "MaxStk": "2", "MaxStmts": "1"}, None),   # == / != of lists and tuples
     ("funcsel", {"Fam": "<- FamFuncSel", "LitPool": "<- Lits1", "Names": "<- Names2", "SigPool": "<- SigsTup",
-                 "BinOps": "<- Ops2", "FldNames": "<- Flds2", "MaxN": "8", "MaxD": "5", "MaxStk": "2", "MaxCtx": "2",
+                 "BinOps": "<- Ops1", "FldNames": "<- Flds2", "MaxN": "7", "MaxD": "4", "MaxStk": "2", "MaxCtx": "2",
                  "MaxStmts": "2"}, None),        # bodies that select fields / elements of a parameter
     ("funcshadow", {"Fam": "<- FamFuncBody", "LitPool": "<- Lits2", "Names": "<- NamesBC", "SigPool": "<- Sigs2",
                     "BinOps": "<- Ops2", "Prelude": "<- PreShadow", "MaxN": "4", "MaxStk": "2", "MaxCtx": "2",
